@@ -12,7 +12,7 @@ import (
 
 func init() {
 	Register("C11", "Decides structural necessary conditions of race-freedom: (pool) no result aliases a pooled buffer; (lock) the generated containers follow their locking discipline; (once) once-guarded state is written only inside its once closure and the lazily built fields of a schema object only under LoadOnce/CompileOnce; (ro) outside once closures and held locks, the read-only API (Check, Len, Example, GetAST, UsedUserTypes, OpenAPI conversion) writes no field of the persistent model types. (global) no package-level variable is written after initialisation except the tabled synchronised objects: goroutines working on their own schemas share nothing else. Type-based, not object-based: does NOT decide absence of races in general nor equality with sequential results.",
-		poolRule("C11.pool"), c11lockRule("C11.lock"), c11once, c11onceread, oncePanicRule("C11.oncepanic"), onceCaptureRule("C11.oncecapture"), c11ro, c10aliasin("C11.aliasin"), c11extAs("C11.ext"), c10share("C11.share"), inplaceRule("C11.inplace"), func(c *core.Ctx) { c10globalAs(c, "C11.global") })
+		poolRule("C11.pool"), c11lockRule("C11.lock"), c11once, c11onceread, oncePanicRule("C11.oncepanic"), onceCaptureRule("C11.oncecapture"), c11ro, c10aliasin("C11.aliasin"), c11extAs("C11.ext"), c10share("C11.share"), inplaceRule("C11.inplace"), func(c *core.Ctx) { c10resetAs(c, "C11.reset") }, func(c *core.Ctx) { c10globalAs(c, "C11.global") })
 }
 
 // onceClosures: closures passed (directly) to ErrOnce.Do / ErrOnceWithValue.Do / sync.Once.Do.
